@@ -8,9 +8,9 @@ import (
 	"sort"
 	"strings"
 
-	"golang.org/x/tools/go/packages"
 	"golang.org/x/tools/go/ast/astutil"
 	"golang.org/x/tools/go/cfg"
+	"golang.org/x/tools/go/packages"
 	"golang.org/x/tools/go/ssa"
 
 	"ogenverif/internal/core"
@@ -912,7 +912,6 @@ func checkExhaustion(c *core.Ctx, prog *core.Prog, r *core.Rule) {
 		}
 	}
 }
-
 
 // checkNumberSpellingCanonical (R18.8, S1). Enum members, defaults and examples reach the parser as raw JSON made by
 // jsonschema.convertYAMLtoRawJSON, and the generator later compares the values parsed from that text with
